@@ -57,8 +57,8 @@ def oracle(toks, line):
         if name in fns:
             return line == f"ok rep={fns.index(name) + 1} back={ln}.{name}"
         return line == "ok rep=0 back=null"
-    if op == "fload":
-        sb, rep = int(toks[1]), int(toks[2])
+    if op in ("fload", "fctx"):
+        sb, rep = (int(toks[1]), int(toks[2])) if op == "fload" else (int(toks[2]), int(toks[3]))
         ln, fns = LIBS[sb]
         if rep == 0:
             return line == "ok null"
@@ -114,6 +114,8 @@ def run(chk):
             ops.append(f"fstore {sb} {name}")
         for rep in (0, 1, 2, 3, 4, 0x4000, 0x4001, 0x4007, 0x4008, 77):
             ops.append(f"fload {sb} {rep}")
+            ops.append(f"fctx result {sb} {rep}")
+            ops.append(f"fctx cbarg {sb} {rep}")
     # a backend whose guest pointers are as wide as the host's (ABI B): whole arrays of pointers must still be translated
     for o in ["null", "1", "4660", "65535"] + [str(rng.randrange(1, BLK)) for _ in range(30 if thorough else 6)]:
         ops.append(f"pstoreb cell {o}")
